@@ -7,7 +7,13 @@ use std::time::{Duration, SystemTime, UNIX_EPOCH};
 use crate::CacheError;
 
 fn storage_bucket(t: Time) -> i64 {
-    (t.unix() + 1) as i64
+    // A deadline beyond i64::MAX seconds is listed in the last bucket, which never comes due.
+    let secs = t.unix();
+    if secs >= i64::MAX as u64 {
+        i64::MAX
+    } else {
+        (secs + 1) as i64
+    }
 }
 
 fn cleanup_bucket(t: Time) -> i64 {
@@ -44,7 +50,8 @@ impl Time {
     pub fn unix(&self) -> u64 {
         self.created_at
             .duration_since(UNIX_EPOCH)
-            .map(|d| d + self.d)
+            // a TTL as large as Duration::MAX must not overflow: the deadline saturates
+            .map(|d| d.checked_add(self.d).unwrap_or(Duration::MAX))
             .unwrap()
             .as_secs()
     }
